@@ -135,8 +135,42 @@ func condRandomOp(c *Ctx, domain bool, doms []string) condRMOp {
 	return o
 }
 
+// condChains: chains around the hierarchy depth limit (10): reachable over exactly 10 links, not over 11
+func condChains(c *Ctx) {
+	for _, domain := range []bool{false, true} {
+		var rm rbac.ConditionalRoleManager
+		if domain {
+			rm = defaultrolemanager.NewConditionalDomainManager(10)
+			c.W.Op("new domain", "ok")
+		} else {
+			rm = defaultrolemanager.NewConditionalRoleManager(10)
+			c.W.Op("new plain", "ok")
+		}
+		name := func(i int) string { return fmt.Sprintf("n%d", i) }
+		for i := 0; i < 12; i++ {
+			o := condRMOp{kind: "addlink", u: name(i), r: name(i + 1), d: "d1", params: []string{"on"}}
+			condApply(rm, domain, o)
+			c.W.Op(o.line(domain), "ok")
+		}
+		for _, pr := range [][2]int{{0, 9}, {0, 10}, {0, 11}, {2, 12}, {1, 12}, {3, 3}, {5, 4}} {
+			line := "haslink " + name(pr[0]) + " " + name(pr[1])
+			var ok bool
+			if domain {
+				ok, _ = rm.HasLink(name(pr[0]), name(pr[1]), "d1")
+				line += " d1"
+			} else {
+				ok, _ = rm.HasLink(name(pr[0]), name(pr[1]))
+			}
+			c.W.Op(line, proto.Bool(ok))
+		}
+		c.Evals++
+		c.Count("cond_rm_chain_cases", 1)
+	}
+}
+
 func c05CondDirect(c *Ctx) {
 	c.W.Op("case condrm", "#")
+	condChains(c)
 	n := 150
 	if c.Thorough() {
 		n = 6000
